@@ -349,6 +349,18 @@ class Ctx:
                 fl, fr = self.eng.evalf(l), self.eng.evalf(r)
                 differs = not (abs(fl - fr) <= 1e-6 * (1 + abs(fr))) if (fl == fl and fr == fr) else True
             if differs:
+                try:
+                    fl_, fr_ = float(self.eng.evalf(l)), float(self.eng.evalf(r))
+                    tiny = abs(fl_ - fr_) <= 2e-6 * (1.0 + abs(fr_))
+                except Exception:
+                    tiny = False
+                if tiny:
+                    # the two sides differ only at float32 resolution: an artefact of identifying float constants with
+                    # rationals, not something a replay could confirm - reported as undecided, never as proved
+                    res["status"] = "inconclusive"
+                    res["why"] = f"sides differ only at float32 resolution at the witness (constant identification): {tm.show(l, 100)} vs {tm.show(r, 100)}"
+                    self.results.append(res)
+                    return
                 res["status"] = "violated"
                 res["why"] = f"differs at the witness: {tm.show(l, 160)} vs {tm.show(r, 160)}"
                 self.candidates.append(Candidate(i, what, kind, dict(self.eng.envq), res["why"]))
